@@ -155,6 +155,11 @@ def gen_div_op(rng, ncontents):
 def gen_seq_program(seed, prof, tier="quick", mp=None, length=None):
     rng = rng_for(seed)
     cfg = gen_cfg(rng)
+    if prof == "C14":
+        from . import cfgspace
+        cfg = cfgspace.gen_create_cfg(rng)
+        if rng.random() < 0.2:
+            cfg["store_depth"] = str(cfg["store_depth"])
     knobs = gen_knobs(rng, mp=mp)
     if prof == "C18":
         from . import adversarial
@@ -184,6 +189,8 @@ def gen_seq_program(seed, prof, tier="quick", mp=None, length=None):
         length = rng.randint(8, 40) if tier == "quick" else rng.randint(10, 120)
     ops = []
     npids = len(pids)
+    if prof == "C17":
+        pids.append("never-bound:pid")  # index npids: only the invalid-call grammar refers to it
     for _ in range(length):
         k = pick_weighted(rng, weights)
         if k == "store":
@@ -237,10 +244,15 @@ def gen_seq_program(seed, prof, tier="quick", mp=None, length=None):
             pid = rng.randrange(npids)
             sop = gen_store_op(rng, "C19", npids, ncont, pid=pid)
             sop["kind"] = rng.choice(["str", "path"])
+            if sop.get("size") and not sop.get("ck"):
+                # the step-wise procedure always passes a checksum to delete_if_invalid_object
+                sop["ckalgo"] = spell(rng, rng.choice(M.ALL_ALGOS))
+                sop["ck"] = "ok"
+            sop.pop("add", None)
             ops.append({"op": "converge", "store": sop})
         elif k == "reopen":
             from . import cfgspace
-            ops.append({"op": "reopen", "cfg": cfgspace.gen_reopen_cfg(rng, cfg)})
+            ops.append(dict({"op": "reopen"}, **cfgspace.gen_reopen(rng, cfg)))
     return {"seed": seed, "engine": "seq", "prof": prof, "cfg": cfg, "knobs": knobs, "pids": pids,
             "formats": formats, "contents": contents, "mcontents": mcontents, "ops": ops}
 
